@@ -43,6 +43,19 @@ Proof.
 Qed.
 Print Assumptions C09_backoff.
 
+(* "growing delays": if next is strictly increasing below the cap (and the initial interval exceeds one second), every
+   sleep of an outage is strictly longer than the one before it until the cap is reached, and stays at the cap. *)
+Theorem C09_backoff_growing : forall next tplus w0 odur one wmax t0 tr s, 0 <= odur ->
+  (forall w, one <= w -> w <= wmax -> w <= next w) -> (forall w, next w <= wmax) ->
+  (forall w, one < w -> w < wmax -> w < next w) -> one < w0 /\ w0 <= wmax ->
+  wf_trace tr -> run next tplus w0 odur (init t0) tr = Some s -> growing wmax (hist s).
+Proof.
+  intros next tplus w0 odur one wmax t0 tr s Ho H1 H2 H1s [Hw0 Hw1] Hwf H.
+  pose proof (reach_inv next tplus w0 odur Ho t0 tr s Hwf H) as HI.
+  apply (chain_growing next w0 one wmax H1 H2 ltac:(lia) H1s (hist s) Hw0). exact (i_hist _ _ _ _ HI).
+Qed.
+Print Assumptions C09_backoff_growing.
+
 (* hist is what it claims to be: it changes exactly when a sleep is entered - w0 on the first fault of an
    outage (starting at the time of the fault), next w after a failed attempt that followed a sleep of w
    (starting when the attempt failed) - and records that sleep's interval. *)
@@ -119,14 +132,18 @@ Proof.
 Qed.
 Print Assumptions C09_close_stops.
 
-(* Real-analysis side lemma: the ideal back-off function w => min (w ^ 1.2) max satisfies H1 (and H2):
-   for w >= 1 it does not shrink.  (For w < 1 it does - a configured initial_wait_interval below one second
+(* Real-analysis side lemma: the ideal back-off function w => min (w ^ 1.2) max satisfies H1, H2 and the
+   strict version of H1: for w >= 1 it does not shrink, for 1 < w < max it grows.  (For w < 1 it does - a configured initial_wait_interval below one second
    makes the retry loop spin faster and faster; the shipped default is 5.)  The doubles that actually occur
    are checked against H1/H2 on every run (Resurrector.tab_ok). *)
 Theorem C09_Rpower_grows : forall w wmax : Rdefinitions.R, (1 <= w)%R -> (w <= wmax)%R ->
   (w <= Rbasic_fun.Rmin (Rpower.Rpower w (6 / 5)) wmax)%R /\
-  (Rbasic_fun.Rmin (Rpower.Rpower w (6 / 5)) wmax <= wmax)%R.
-Proof. intros w wmax H Hm. split; [apply RealSide.backoff_real_H1; assumption|apply RealSide.backoff_real_H2]. Qed.
+  (Rbasic_fun.Rmin (Rpower.Rpower w (6 / 5)) wmax <= wmax)%R /\
+  ((1 < w)%R -> (w < wmax)%R -> (w < Rbasic_fun.Rmin (Rpower.Rpower w (6 / 5)) wmax)%R).
+Proof.
+  intros w wmax H Hm. split; [apply RealSide.backoff_real_H1; assumption|].
+  split; [apply RealSide.backoff_real_H2|apply RealSide.backoff_real_H1s].
+Qed.
 Print Assumptions C09_Rpower_grows.
 
 (* ---- non-vacuity: a concrete history (unit = 1, w => min (2w) 8, exact clock, Open takes no time) --------- *)
@@ -142,7 +159,7 @@ Example C09_nonvacuous :
            OCreate 3; OOpenUnder 3; OCloseUnder 3; OCreate 4; OOpenUnder 4; OCloseUnder 4; OFailFast;
            OCreate 5; OOpenUnder 5; OForward 5; OCloseUnder 5; OForward 5])
   /\ wf_trace ex_trace
-  /\ (forall w, 1 <= w -> w <= 8 -> w <= ex_next w) /\ (forall w, ex_next w <= 8) /\ (forall t w, Z.add t w <= t + w + 0).
+  /\ (forall w, 1 <= w -> w <= 8 -> w <= ex_next w) /\ (forall w, 1 < w -> w < 8 -> w < ex_next w) /\ (forall w, ex_next w <= 8) /\ (forall t w, Z.add t w <= t + w + 0).
 Proof.
   split; [vm_compute; reflexivity|]. split; [unfold wf_trace; cbn; intuition discriminate|].
   unfold ex_next. repeat split; intros; lia.
